@@ -198,6 +198,7 @@ class C07(InputProp):
                 self.treecleaner.TreeCleaner(tree, save_reports=True).clean_all()
                 o2, i2 = observe(tree)
                 t2 = under_table(tree)
+                extra = "".join(X.TOKEN.sub("", "".join(n.caption or "" for n in tree.allchildren() if type(n).__name__ == "Text")).split())
             except Exception as e:
                 return {"key": "exc", "viol": [{"sig": "raises:" + exc_signature(e), "msg": "%r raised %r" % (text, e)}]}
         viol = []
@@ -208,6 +209,8 @@ class C07(InputProp):
                     return names[i]
             return "?"
 
+        if extra:
+            viol.append({"sig": "invented-text|%s" % "+".join(sorted(set(names)))[:60], "msg": "the cleaned tree shows %r which is not text of the document; %r" % (extra[:40], text)})
         if o1 != o2:
             lost = [t for t in o1 if t not in o2]
             dup = sorted(set(t for t in o2 if o2.count(t) > 1))
